@@ -76,6 +76,19 @@ async fn adv_accept(ctx: &ctx::Ctx, l: &TcpListener) -> Result<(nv::VNoise<TcpSt
     Ok((s, id))
 }
 
+/// Encodings of small-order points of edwards25519 (neutral element, the point of order 2, the two of order 4).
+fn small_order_points() -> Vec<(&'static str, [u8; 32])> {
+    let mut neutral = [0u8; 32];
+    neutral[0] = 1;
+    let mut order2 = [0xffu8; 32];
+    order2[0] = 0xec;
+    order2[31] = 0x7f;
+    let order4a = [0u8; 32];
+    let mut order4b = [0u8; 32];
+    order4b[31] = 0x80;
+    vec![("neutral element", neutral), ("order 2", order2), ("order 4 (a)", order4a), ("order 4 (b)", order4b)]
+}
+
 fn gossip_handshake(key: &node::SecretKey, claimed: Option<node::PublicKey>, session: &[u8], genesis: validator::GenesisHash, foreign_sig: bool) -> Vec<u8> {
     use wire::{Field, Val};
     let mut signed = key.sign_msg(node::SessionId(session.to_vec()));
@@ -230,6 +243,27 @@ fn tcp_part(seed: u64) -> Tally {
             send_frame(ctx, &mut s6, &hb[..hb.len() / 2]).await.map_err(|e| anyhow::format_err!(e))?;
             let r = recv_frame(ctx, &mut s6).await;
             tally.lock().unwrap().expect("gossip_inbound_truncated", r.is_ok() || admitted(kb), false, "truncated handshake message".into());
+            // 6b. identities that have no secret key: small-order points of the curve as public key with the
+            // degenerate signature (R small-order, s = 0), which satisfies the plain verification equation for
+            // every message (always for the neutral element, with probability 1/2 - 1/4 for the others): the same
+            // 64 bytes on every session. Nobody can have proved possession of such a key.
+            for (kn, kbytes) in small_order_points() {
+                let Ok(weak_key) = <node::PublicKey as zksync_consensus_crypto::ByteFmt>::decode(&kbytes) else { continue };
+                for (rn, rbytes) in small_order_points() {
+                    let mut sig = [0u8; 64];
+                    sig[..32].copy_from_slice(&rbytes);
+                    let Ok(weak_sig) = <node::Signature as zksync_consensus_crypto::ByteFmt>::decode(&sig) else { continue };
+                    for session in 0..2 {
+                        let (mut sk, idk) = adv_connect(ctx, addr, true).await.map_err(|e| anyhow::format_err!(e))?;
+                        let signed = node::Signed { msg: node::SessionId(idk.clone()), key: weak_key.clone(), sig: weak_sig.clone() };
+                        let hs = wire::write(&[wire::Field { num: 1, val: wire::Val::Bytes(zksync_protobuf::encode(&signed)) }, wire::Field { num: 3, val: wire::Val::Bytes(zksync_protobuf::encode(&genesis)) }, wire::Field { num: 2, val: wire::Val::Varint(0) }]);
+                        send_frame(ctx, &mut sk, &hs).await.map_err(|e| anyhow::format_err!(e))?;
+                        let r = recv_frame(ctx, &mut sk).await;
+                        let inside = net.inbound_keys().contains(&weak_key);
+                        tally.lock().unwrap().expect("gossip_inbound_keyless_identity", r.is_ok() || inside, false, format!("identity = small-order point {kn} (no secret key exists), signature (R = {rn}, s = 0), session {session}"));
+                    }
+                }
+            }
             // ---------- admission: A is connected (s1 alive). A second connection authenticated as A is a duplicate
             let (mut s7, id7) = adv_connect(ctx, addr, true).await.map_err(|e| anyhow::format_err!(e))?;
             send_frame(ctx, &mut s7, &gossip_handshake(ka, None, &id7, genesis, false)).await.map_err(|e| anyhow::format_err!(e))?;
